@@ -26,7 +26,7 @@ NUM_VALUES = [2, 5, 3, 0]
 REGEXES = ['^a', 'b$', '.', 'x', '^$', 'a*']
 
 
-def make_tasks(pop, par=(None, None, None, None)):
+def make_tasks(pop, par=(None, None, None, None), ids=(1, 2, 3, 4)):
     from pjplan import Task, WBS
     objs = []
     for i in range(4):
@@ -34,7 +34,7 @@ def make_tasks(pop, par=(None, None, None, None)):
         for a, vals in pop.items():
             if vals[i] is not ABSENT:
                 kw[a] = vals[i]
-        objs.append(Task(i + 1, **kw))
+        objs.append(Task(ids[i], **kw))
     w = WBS()
     for i, t in enumerate(objs):
         if par[i] is None:
@@ -155,9 +155,12 @@ def _work(chunk):
                                        ('no-filter', None, lambda k: True),
                                        ('kw-milestone', None, lambda k: pop['milestone'][k] is True),
                                        ('kw-estimate', None, lambda k: value(pop, par, k, 'estimate') == 2)):
-                    for target in ('tasks', 'W.remove_all', 'roots.remove_all', 'children.remove_all'):
-                        w, objs = make_tasks(pop, par)
-                        case = {'population': pi, 'parents': list(par), 'filter': fname, 'target': target}
+                    # ids whose printed forms are prefixes of one another (1 / 12, 2 / 25, 1 / 1.5) next to the plain 1..4
+                    for target, idmap in [(tg, (1, 2, 3, 4)) for tg in ('tasks', 'W.remove_all', 'roots.remove_all', 'children.remove_all')] + \
+                            [('W.remove_all', (1, 12, 2, 25)), ('W.remove_all', (12, 1, 1.5, 2)), ('roots.remove_all', (1, 12, 2, 25)),
+                             ('children.remove_all', (10, 1, 12, 100))]:
+                        w, objs = make_tasks(pop, par, idmap)
+                        case = {'population': pi, 'parents': list(par), 'filter': fname, 'target': target, 'ids': list(idmap)}
                         kw = {'milestone': True} if fname == 'kw-milestone' else {'estimate': 2} if fname == 'kw-estimate' else {}
                         args = (fn,) if fn is not None else ()
                         acc.count('evaluations')
